@@ -14,6 +14,7 @@ from vlib import core
 
 PID = "C11"
 ENTRIES = {"c11_sched": ("Conc.Entry", "entry_c11_sched"),
+           "c11_known": ("Conc.Entry", "entry_c11_known"),
            "c11_status": ("Conc.Entry", "entry_c11_status"),
            "c11_strip": ("Conc.Entry", "entry_c11_strip")}
 TRUSTED = [
@@ -63,7 +64,7 @@ def src_file(d, idx, count):
 # stage = (beh, form, arg)   beh: src(count) cat head(k) drop(d) read1 sink
 def model_fields(st, repaired=False):
     """today: compound/function stages are run inline by the spawn loop; repaired: every stage is spawned"""
-    beh, form, arg = st
+    beh, form, arg = st[:3]
     k = "I" if (form in INLINE_FORMS and not repaired) else "S"
     if beh == "src":
         return [k, "0", "0", "1", str(arg)]
@@ -82,7 +83,7 @@ def model_fields(st, repaired=False):
 
 def render_stage(st, i, d):
     """-> (prelude, command text)"""
-    beh, form, arg = st
+    beh, form, arg = st[:3]
     if beh == "src":
         f = src_file(d, i, arg)
         core_cmd = "cat %s" % f
@@ -133,7 +134,7 @@ def flow(stages):
     """python spec oracle: what each stage emits, as (src index, lo, hi) half-open id ranges."""
     cur = (0, 0, 0)
     outs = []
-    for i, (beh, form, arg) in enumerate(stages):
+    for i, (beh, form, arg) in enumerate(x[:3] for x in stages):
         s, lo, hi = cur
         if beh == "src":
             cur = (i, 0, arg)
@@ -154,6 +155,14 @@ def flow_bytes(r):
     return b"".join(line(s * BASE + j) for j in range(lo, hi))
 
 
+def expected_bytes(stages, data):
+    """what the script prints: the pipeline's output, or for a wrapped pipeline its value as a substitution"""
+    if wrapped(stages):
+        while data.endswith(b"\n"):
+            data = data[:-1]
+    return data
+
+
 def known_inline(stages):
     """decidable class of KF-C11-inline-stage: some non-final stage is a compound command or a function
     and emits more than the pipe capacity (mirrors Conc/SchedProofs.v known_class)."""
@@ -162,12 +171,19 @@ def known_inline(stages):
                for i, st in enumerate(stages[:-1]))
 
 
+def wrapped(stages):
+    """the whole pipeline runs inside a command substitution whose value is printed afterwards"""
+    return len(stages[0]) > 3 and stages[0][3] == "cmdsub"
+
+
 def script_of(stages, d, statfile):
     pre, cmds = "", []
     for i, st in enumerate(stages):
         p, c = render_stage(st, i, d)
         pre += p
         cmds.append(c)
+    if wrapped(stages):
+        return pre + "X=$(" + " | ".join(cmds) + ")\necho \"$?\" > %s\nprintf '%%s' \"$X\"\n" % statfile
     return pre + " | ".join(cmds) + "\necho \"$? ${PIPESTATUS[*]}\" > %s\n" % statfile
 
 
@@ -251,6 +267,8 @@ def gen_sched(ctx):
             elif beh == "src":
                 arg = rng.choice(sizes)
             stages.append((beh, form, arg))
+        if rng.random() < 0.2:
+            stages[0] = stages[0] + ("cmdsub",)
         cases.append(stages)
     # filter: sizes in the grey zone around the capacity; read1 needs a line to read; slow loops on huge inputs
     ok = []
@@ -291,11 +309,13 @@ def ranges_to_flow(txt):
     return out
 
 
-def status_ok(code_stat, model_runs, nst):
+def status_ok(code_stat, model_runs, nst, only_last=False):
     """code '$? s0 s1 ..' must be componentwise among the statuses the model reaches under its schedulers"""
     if code_stat is None:
         return False
     parts = code_stat.split()
+    if only_last:       # wrapped pipeline: only `$?` of the substitution is visible
+        return len(parts) == 1 and parts[0] in {m["st"].split(",")[-1] for m in model_runs}
     if len(parts) != nst + 1:
         return False
     allowed = [set() for _ in range(nst)]
@@ -316,6 +336,13 @@ def eval_sched(ctx, cases, env=None, variant=None):
         model_rep = ctx.model("c11_sched", [[str(CAP)] + sum((model_fields(s, True) for s in st), []) for st in cases])
         mruns = [parse_model(m) for m in model]
         want_hang = [bool(r) and all(x["verdict"] == "stuck" for x in r) for r in mruns]
+        # the class predicate of the finding: python (known_inline/flow) and Coq (Known.known_class/counts) must agree
+        kn = ctx.model("c11_known", [[str(CAP)] + sum((model_fields(s) for s in st), []) for st in cases])
+        for st, kl in zip(cases, kn):
+            kf = core.dec_line(kl)
+            py_counts = ",".join(str(o[2] - o[1]) for o in flow(st))
+            if len(kf) != 2 or (kf[0] == "1") != known_inline(st) or kf[1] != py_counts:
+                raise core.CheckBroken("known-class predicate: Coq %r vs python (%r, %s) on %r" % (kf, known_inline(st), py_counts, st))
     else:
         model, mruns = [None] * len(cases), [None] * len(cases)
         want_hang = [known_inline(st) for st in cases]
@@ -354,12 +381,14 @@ def eval_sched(ctx, cases, env=None, variant=None):
             dist["by_form"][s[1]] = dist["by_form"].get(s[1], 0) + 1
             dist["by_beh"][s[0]] = dist["by_beh"].get(s[0], 0) + 1
         dist["n_stages"][len(st)] = dist["n_stages"].get(len(st), 0) + 1
+        dist["inside_command_substitution"] = dist.get("inside_command_substitution", 0) + (1 if wrapped(st) else 0)
         info = {"stages": st, "script": script_of(st, "$D", "$ST"), "env": env or {}}
         verdicts = {x["verdict"] for x in mr} if use_model else set()
         if use_model and (not mr or len(verdicts) != 1 or "fuel" in verdicts or len({x["ranges"] for x in mr}) != 1):
             raise core.CheckBroken("model schedulers disagree or ran out of fuel on %r: %r" % (st, mr))
         spec_out = flow(st)[-1]
-        spec_data = flow_bytes(spec_out)
+        spec_data = expected_bytes(st, flow_bytes(spec_out))
+        wr = wrapped(st)
         spec_sha = hashlib.sha1(spec_data).hexdigest()
         # the spec oracle itself against bash
         if bash["hung"] or bash["sha"] != spec_sha:
@@ -379,7 +408,7 @@ def eval_sched(ctx, cases, env=None, variant=None):
         elif code["sha"] != spec_sha:
             specv.append({"input": info, "why": "output differs: %d bytes sha %s, expected %d bytes sha %s" % (
                 code["len"], code["sha"][:12], len(spec_data), spec_sha[:12])})
-        elif code["stat"] != bash["stat"] and not (use_model and status_ok(code["stat"], mr, len(st))):
+        elif code["stat"] != bash["stat"] and not (use_model and status_ok(code["stat"], mr, len(st), wr)):
             specv.append({"input": info, "why": "statuses `$? PIPESTATUS` = %r, bash %r, model %r" % (
                 code["stat"], bash["stat"], [x["st"] for x in mr])})
         # ---- code vs model
@@ -394,12 +423,12 @@ def eval_sched(ctx, cases, env=None, variant=None):
                     mism.append({"case": info, "model": "stuck", "code": code})
         else:
             mflow = ranges_to_flow(mr[0]["ranges"])
-            mdata = b"".join(flow_bytes(r) for r in mflow)
+            mdata = expected_bytes(st, b"".join(flow_bytes(r) for r in mflow))
             if code["hung"]:
                 mism.append({"case": info, "model": "final", "code": "hang"})
             elif hashlib.sha1(mdata).hexdigest() != code["sha"]:
                 mism.append({"case": info, "model": mr[0]["ranges"], "code": code})
-            elif not status_ok(code["stat"], mr, len(st)):
+            elif not status_ok(code["stat"], mr, len(st), wr):
                 mism.append({"case": info, "model": [x["st"] for x in mr], "code": code["stat"]})
     return {"mism": mism, "specv": specv, "stale": stale, "dist": dist, "mruns": mruns, "model_lines": model,
             "variant": variant, "fields": lambda st: model_fields(st, variant == "repaired")}
